@@ -105,11 +105,15 @@ package das
 //@   requires !$PendingJob
 //@   requires sc.state.samplingRange > 0
 //@   requires sc.concurrencyLimit >= 1 && len(sc.state.inProgress) == 0 && len(cp.Workers) <= sc.concurrencyLimit
+//@   requires sc.state.failed != nil && sc.state.inRetry != nil && sc.state.failed != sc.state.inRetry
 //@   loop 1: invariant !$PendingJob && sc.state.samplingRange > 0
+//@   loop 1: invariant sc.state.failed != nil && sc.state.inRetry != nil && sc.state.failed != sc.state.inRetry
 //@   loop 1: invariant -1 <= rangeindex && rangeindex < len(cp.Workers) && len(sc.state.inProgress) <= rangeindex + 1 && sc.concurrencyLimit >= 1 && len(cp.Workers) <= sc.concurrencyLimit
 //@   loop 2: invariant !$PendingJob && sc.state.samplingRange > 0
+//@   loop 2: invariant sc.state.failed != nil && sc.state.inRetry != nil && sc.state.failed != sc.state.inRetry
 //@   loop 2: invariant sc.concurrencyLimit >= 1 && len(sc.state.inProgress) <= 2 * sc.concurrencyLimit
 //@   loop 3: invariant !$PendingJob && sc.state.samplingRange > 0
+//@   loop 3: invariant sc.state.failed != nil && sc.state.inRetry != nil && sc.state.failed != sc.state.inRetry
 //@   loop 3: invariant sc.concurrencyLimit >= 1 && len(sc.state.inProgress) <= 2 * sc.concurrencyLimit
 
 // ---------------------------------------------------------------------------------------------
@@ -158,7 +162,8 @@ package das
 // is lost, and the job's heights leave `inRetry`.
 //@ func (*coordinatorState).handleRetryResult
 //@   property C13 C04
-//@   requires s != nil && s.failed != nil && s.inRetry != nil && s.failed != s.inRetry && res.to < 18446744073709551615
+//@   requires s != nil && s.failed != nil && s.inRetry != nil && s.failed != s.inRetry
+//@   assume res.to < 18446744073709551615
 //@   modifies s.failed
 //@   modifies s.inRetry
 //@   ensures forall h uint64 :: has(res.failed, h) ==> has(s.failed, h) && s.failed[h].count == (old(has(s.inRetry, h)) ? old(s.inRetry[h].count) : 0) + 1
@@ -174,6 +179,7 @@ package das
 //@   loop 2: invariant forall h2 uint64 :: old(has(s.failed, h2)) ==> has(s.failed, h2)
 //@ func (*coordinatorState).handleResult
 //@   property C13
+//@   requires s != nil && s.failed != nil && s.inRetry != nil && s.failed != s.inRetry
 //@   modifies s
 //@   modifies s.inProgress
 //@   modifies s.failed
